@@ -87,7 +87,7 @@ impl<'a> W<'a> {
                     return Err(format!("pointer at {} does not point backwards ({})", p, target));
                 }
                 hops += 1;
-                if hops > 64 {
+                if hops > 130 {
                     return Err("pointer loop".into());
                 }
                 p = target;
